@@ -1,10 +1,12 @@
 """C17 - a written setting reads back as written and touches only its own registers (DESIGN 6/C17)."""
 from __future__ import annotations
 
+import asyncio
+
 import random
 from datetime import datetime
 
-from sim.net import World
+from sim.net import World, DEFAULT_LATENCY
 from sim import refdecode as R
 from . import common as C
 from . import devices
@@ -78,7 +80,7 @@ def make_case(tier, seed, index):
     return {"family": fam, "variant": var, "transport": tr, "slot": slot, "chunk": ch, "rep_only": rep_only,
             "seed": (seed * 9176 + index) & 0xFFFFFF, "benign": index % 4 == 3,
             # the application runs the library's logger at DEBUG level
-            "debug_log": index % 7 == 2,
+            "debug_log": index % 7 == 2, "refresh": index % 3 == 1,
             "tz": "CET-1CEST,M3.5.0,M10.5.0/3" if index % 2 else "EST5EDT,M3.2.0,M11.1.0",
             # a peer that appends surplus bytes to every RTU answer (accepted by the library, see C02)
             "trailing": ["", "", "0000", "a55a", "12345678"][(index // 2) % 5] if tr == "udp" and fam != "ES" else ""}
@@ -268,7 +270,18 @@ def run_case(case):
                                         [{"k": "ok", "d": 0.5}]), default_fault)
             what = f"{fam}/{var}/{tr} write_setting({st.id_!r}, {v!r}) [{cls} @ {st.offset}]"
             try:
-                await inv.write_setting(st.id_, v)
+                if case.get("refresh") and fam in ("ET", "ES") and not case.get("benign") and j % 3 == 2:
+                    # the application refreshes the device info while another task writes the setting: the write is
+                    # issued 1.5 / 2.5 / 3.5 latencies into the refresh (between its requests)
+                    async def late_write(delay=(1.5 + (j // 3) % 3) * DEFAULT_LATENCY):
+                        await asyncio.sleep(delay)
+                        await inv.write_setting(st.id_, v)
+                    res = await asyncio.gather(inv.read_device_info(), late_write(), return_exceptions=True)
+                    if isinstance(res[1], BaseException):
+                        raise res[1]
+                    what += " (issued while read_device_info() was in progress)"
+                else:
+                    await inv.write_setting(st.id_, v)
             except Exception as e:  # noqa
                 add(f"C17:{cls}:exception:{type(e).__name__}", f"{what} raised {e!r}")
                 continue
